@@ -10,6 +10,7 @@ import (
 )
 
 var registry = map[string]func(*core.Run){
+	"C01": checks.C01,
 	"C07": checks.C07,
 	"C08": checks.C08,
 }
